@@ -210,6 +210,9 @@ if __name__ == '__main__':
     # header cuts: OCSP responses (ResponseData region; the certificates and the subject are not needed to reach the parser)
     run_hdr('c09_ocsp_response', 'rsa_revoked', 3, 70, drop_others=True)
     run_hdr('c09_ocsp_response', 'rsa_bykey_nonce', 3, 45, drop_others=True)
+    # header cuts: one certificate with extensions (every TLV of it) and the TBSCertList of a CRL with entries
+    run_hdr('c09_x509_cert', 'ext_leaf_ed.der', 1, 130)
+    run_hdr('c09_crl', 'crl_rsa', 2, 80, drop_others=True)
     # header cuts: private keys in every native encoding, through the trial parsers (selector 0 = psParseUnknownPrivKeyMem,
     # 6 = psEd25519ParsePrivKey, 2 / 3 = the RSA / EC parser) and through PKCS#8 / matrixSslLoadKeysMem
     run_hdr('c09_privkey_any', 'rsa1024_unknown', 1, 12, hdrs=[0, 2, 6])
@@ -218,3 +221,8 @@ if __name__ == '__main__':
     run_hdr('c09_pkcs8', 'p8_ec256', 1, 16)
     run_hdr('c09_pkcs8', 'p8_ed', 1, 12)
     run_hdr('c09_load_keys_mem', 'ed25519', 3, 8, part=1)
+    # header cuts: public keys, DH parameters, the outer layers of a PKCS#12 file
+    run_hdr('c09_pubkey_any', 'rsa_spki', 1, 12, hdrs=[0, 1, 2])
+    run_hdr('c09_pubkey_any', 'ec_spki', 1, 12, hdrs=[0, 2])
+    run_hdr('c09_dh_params', 'dh512.der', 1, 8)
+    run_hdr('c09_pkcs12', 'p12_nomac', 1, 40)
